@@ -426,14 +426,19 @@ class Program:
             from . import inline
             inline.flatten(self)
 
-    def fn(self, name, file=None, required=True):
+    def flat(self, F):
+        """View of F with the static helpers of its own file spliced in (abtverif/inline.py flat_copy)."""
+        from . import inline
+        return inline.flat_copy(self, F)
+
+    def fn(self, name, file=None, required=True, flat=False):
         """Resolve a function by name (and optionally defining file).  A vanished
-        anchor is an analysis failure, never a pass."""
+        anchor is an analysis failure, never a pass.  flat=True: the flattened view."""
         c = self.by_name.get(name, [])
         if file is not None:
             c = [f for f in c if f.file == file]
         if len(c) == 1:
-            return c[0]
+            return self.flat(c[0]) if flat else c[0]
         if not c:
             if required:
                 raise AnalysisBroken("anchor function %s%s not found in the parsed program"
